@@ -272,7 +272,8 @@ def resume(c1: int, c2: int, c3: int, c4: int, c5: int, x1: bool, x2: bool,
     pre: sl(stop1=stop1)
     pre: 0 <= c1 <= 2 and 0 <= c2 <= 2 and 0 <= c3 <= 2 and 0 <= c4 <= 2
     pre: 0 <= c5 <= 2 and 0 <= stop1 <= 9 and stop1 < stop2 <= 12
-    pre: SLICE.get('full', True) or (c4 == 0 and c5 == 0 and not x2 and stop2 in (stop1 + 1, 12))
+    pre: SLICE.get('full', True) or (c4 == 0 and not x2 and stop2 in (stop1 + 1, 12))
+    pre: c5 == 0 and stop2 in (stop1 + 1, stop1 + 2, 12)
     post: _
     """
     cs = [fork_int(c, 0, 2) for c in (c1, c2, c3, c4, c5)]
